@@ -5,6 +5,7 @@ CONSTANTS
   MaxRogue = 1
   FixUnknown = TRUE
   CtxWriteCloses = TRUE
+  OfferWatchesClosed = TRUE
 SPECIFICATION Spec
 INVARIANTS TypeOK NoSelfClose ClosedOnlyAfterFault OwnReply TagsDistinct NeverNotag NeverCrashes OkHasReply
 
